@@ -295,7 +295,7 @@ func e2eFromArgs(args []string, proxy bool) *e2eCase {
 	ec := &e2eCase{Op: "e2e", Args: args, Proxy: proxy, maxBody: -2}
 	for i := 0; i < len(args); i++ {
 		name, val, has := strings.Cut(args[i], "=")
-		if !has && i+1 < len(args) {
+		if !has && (name == "-header" || name == "-proxy-header") && i+1 < len(args) { // boolean flags take no value
 			i++
 			val = args[i]
 		}
